@@ -44,7 +44,7 @@ struct PoolEngine : Engine {
 		if (k == "INIT") return true;
 		if (k == "DRAIN") return m.depth > 0;
 		if (k == "FREE") return m.depth == 0 && m.alive;
-		if (k == "CONVERT") return m.depth > 0;
+		if (k == "CONVERT" || k == "CRITIC" || k == "META") return m.depth > 0;
 		if (k == "PARSE_HOLD") return m.depth > 0 && !m.held[s];
 		if (k == "INSPECT") return m.held[s] && m.valid[s];
 		if (k == "RELEASE") return m.held[s];
@@ -66,7 +66,7 @@ struct PoolEngine : Engine {
 		auto add = [&](const char * k, int slot) { Json o = Json::object(); o["k"] = k; o["slot"] = slot; if (legal(m, o)) { apply(m, o); ops.push(o); } };
 		for (auto & op : plan.at("ops").a) {
 			std::string k = op.gets("k");
-			if ((k == "CONVERT" || k == "PARSE_HOLD") && m.depth == 0) add("INIT", 0);     // keep the essential operation, restore its bracket
+			if ((k == "CONVERT" || k == "PARSE_HOLD" || k == "CRITIC" || k == "META") && m.depth == 0) add("INIT", 0);     // keep the essential operation, restore its bracket
 			if (legal(m, op)) { apply(m, op); ops.push(op); }
 		}
 		for (int i = 0; i < 3; i++) if (m.held[i]) add("RELEASE", i);
@@ -118,7 +118,9 @@ struct PoolEngine : Engine {
 			if (k < 18) o = mk("INIT");
 			else if (k < 34) o = mk("DRAIN");
 			else if (k < 40) o = mk("FREE");
-			else if (k < 62) o = conv();
+			else if (k < 58) o = conv();
+			else if (k < 60) { o = mk("CRITIC"); o["doc"] = (int64_t)w.below((uint64_t)ndocs); o["accept"] = w.chance(1, 2); }      // other token consumers inside the bracket
+			else if (k < 62) { o = mk("META"); o["doc"] = (int64_t)w.below((uint64_t)ndocs); }
 			else if (k < 76) { o = mk("PARSE_HOLD"); o["slot"] = (int64_t)w.below(3); o["doc"] = (int64_t)w.below((uint64_t)ndocs); o["ext"] = (int64_t)gen_ext(w, false); }
 			else if (k < 92) { o = mk("INSPECT"); o["slot"] = (int64_t)w.below(3); }
 			else { o = mk("RELEASE"); o["slot"] = (int64_t)w.below(3); }
@@ -197,6 +199,17 @@ struct PoolEngine : Engine {
 				o["out"] = digest(out);
 				if (verbose) o["text"] = out.substr(0, 4000);
 				g_log.ev("convert", digest(out));
+			} else if (kind == "CRITIC") {
+				DString * d = IN_LIB(d_string_new(docs[(size_t)op.geti("doc") % docs.size()].s.c_str()));
+				if (op.getb("accept")) IN_LIB_V(mmd_critic_markup_accept(d)); else IN_LIB_V(mmd_critic_markup_reject(d));
+				o["out"] = digest(std::string(d->str, d->currentStringLength));
+				g_log.ev("critic", o.gets("out"));
+				IN_LIB_V(d_string_free(d, true));
+			} else if (kind == "META") {
+				std::string t = docs[(size_t)op.geti("doc") % docs.size()].s;
+				char * r = IN_LIB(mmd_string_metadata_keys(&t[0]));
+				o["out"] = digest(r ? r : "");
+				free(r);
 			} else if (kind == "PARSE_HOLD") {
 				std::string doc = docs[(size_t)op.geti("doc") % docs.size()].s;
 				mmd_engine * e = IN_LIB(mmd_engine_create_with_string(doc.c_str(), (unsigned long)op.geti("ext")));
@@ -246,7 +259,7 @@ struct PoolEngine : Engine {
 		p["engine"] = "pool"; p["knobs"] = plan.at("knobs");
 		Json ops = Json::array();
 		auto mk = [&](const char * kk) { Json o = Json::object(); o["k"] = kk; return o; };
-		if (kind == "CONVERT") {
+		if (kind == "CONVERT" || kind == "CRITIC" || kind == "META") {
 			Json docs = Json::array(); docs.push(plan.at("docs")[(size_t)op.geti("doc") % plan.at("docs").size()]);
 			p["docs"] = docs;
 			Json c = op; c["doc"] = 0;
@@ -275,7 +288,7 @@ struct PoolEngine : Engine {
 		const Json & ops = plan.at("ops");
 		const Json & outs = out.result.at("ops");
 		for (size_t k = 0; k < ops.size() && k < outs.size(); k++) {
-			if (ops[k].gets("k") != "CONVERT") continue;
+			if (ops[k].gets("k") != "CONVERT" && ops[k].gets("k") != "CRITIC" && ops[k].gets("k") != "META") continue;
 			Json iso = isolate(plan, (int)k);
 			ChildOutcome r = ctx.run_ref(iso);
 			if (r.status != "finished") continue;      // the reference itself fails: input-level, not this property's business
